@@ -153,6 +153,11 @@ func c10Queries(w *gen.World, rng *rand.Rand, n int) ([]c02Query, []string) {
 					rng.Read(ip)
 				}
 				q.ECSSrc = uint8([]int{0, 1, 32, 47, 48, 49, 56, 64, 96, 127, 128, rng.Intn(129)}[rng.Intn(12)])
+				if rng.Intn(5) == 0 {
+					// an IPv6-family option carrying an IPv4-mapped address (what a dual-stack forwarder may send)
+					ip = net.IPv4(198, 51, byte(i), byte(rng.Intn(256))).To16()
+					q.ECSSrc = uint8(96 + []int{0, 8, 16, 23, 24, 25, 31, 32}[rng.Intn(8)])
+				}
 				q.ECSIP = ip.Mask(net.CIDRMask(int(q.ECSSrc), 128))
 			}
 		}
